@@ -424,6 +424,22 @@ class P(Prop):
         return [canon(x) for x in self.mk_kernel(k).toSlidingWindow()]
 
     def impl(self, case):
+        try:
+            return self.impl_raw(case)
+        except BaseException as e:
+            if isinstance(e, KeyboardInterrupt):
+                raise
+            # keep the window the implementation exposes: the oracle needs it to tell whether a division by
+            # zero happened inside or outside the property's domain
+            import engine
+            k = case.get("k", {"t": "gaussian", "p": case.get("w"), "fb": False})
+            try:
+                win = self.window_of(k)
+            except BaseException:
+                win = None
+            return {"err": engine.err_kind(e), "detail": str(e)[:200], "window": win}
+
+    def impl_raw(self, case):
         kind = case["kind"]
         if kind == "sw":
             return {"window": self.window_of(case["k"])}
@@ -564,7 +580,7 @@ class P(Prop):
         if kind in ("zeronorm", "short"):
             return None  # outside the domain of the property (a window without valid weight / a signal shorter than the window)
         if "err" in out:
-            return "raised %s (%s)" % (out["err"], out.get("detail", ""))
+            return self.judge_error(case, out)
         if kind == "sw":
             return check_window(out["window"])
         if kind == "feat":
@@ -591,6 +607,23 @@ class P(Prop):
             elif got != [canon(num(a)) for a in v]:
                 return "%s was not to be filtered but changed: %r -> %r" % (nm, v, got)
         return None
+
+    def judge_error(self, case, out):
+        """an exception inside the property's domain is a failure; a ZeroDivisionError is outside the domain when,
+        with the sliding window the implementation itself exposes (well shaped), some window has no valid weight"""
+        msg = "raised %s (%s)" % (out["err"], out.get("detail", ""))
+        k = case.get("k", {"t": "gaussian", "p": case.get("w"), "fb": False})
+        if case["kind"] == "sw" or out["err"] != "err:zerodiv" or k["t"] in ("list", "int"):
+            return msg
+        win = out.get("window")
+        if check_window(win) or any(x < 0 for x in win):
+            return msg
+        w = [Fraction(x) for x in win]
+        sigs = [case["sig"]] if case["kind"] == "feat" else [dict({"x": case["x"], "y": case["y"], "z": case["z"]}, **case.get("feats", {}))[d]
+                                                              for d in case.get("dims", ["x", "y", "z"])]
+        if any(not domain_ok(w, v) for v in sigs):
+            return None
+        return msg
 
     # ---------------------------------------------------------------- shrinking / search
     def _sig_names(self, case):
